@@ -85,6 +85,7 @@ def flow_classes():
         supports_blackbox = False
         method = "exactflow"
         log = []
+        ev = []
 
         def _prepare(self):
             self.name = "exactflow"
@@ -94,6 +95,7 @@ def flow_classes():
             return int(round((self.system(0).full()[0, 1] * 1j).real))
 
         def set_state(self, t, state0):
+            ExactFlow.ev.append("set")
             self._t = t
             self._y = _data.to(_data.Dense, state0).copy()
             self._is_set = True
@@ -105,6 +107,7 @@ def flow_classes():
 
         def integrate(self, t, copy=True):
             ExactFlow.log.append((int(self._t), int(t)))
+            ExactFlow.ev.append("int")
             cte = self.system.isconstant
             k = 0 if cte else self._k()
             F = hmat(hU(cte, k, int(t), int(self._t)))
@@ -149,9 +152,16 @@ def run_prop_impl(case):
     out = []
     info = []
     alias = []
+    sizes = []
     case["_alias"] = alias
+    case["_sizes"] = sizes
+    aops = []
+    case["_aops"] = aops
     for (t, ts, k) in case["qs"]:
         F.log = []
+        F.ev = []
+        n_before = len(P.props)
+        args_before = P.args
         calls = []
         orig = P._compute
 
@@ -169,6 +179,31 @@ def run_prop_impl(case):
             break
         finally:
             del P._compute
+        # the same query as operations of the object-identity model
+        q = []
+        if P.args != args_before and not P.cte:
+            q += ["AEvict 0"] * n_before + ["ANew 0 true", "AStart None 0"]
+            n_mem, evs = 1, list(F.ev)[1:]
+        else:
+            n_mem, evs = n_before, list(F.ev)
+        for (_tt, idx) in calls:
+            if idx == 0:                       # backward branch
+                body, evs = ["AStart None 0", "AStep (Z.add 1) false"], evs[2:]
+                tail, evs = ["AStart None 0"], evs[1:]
+                ins = "ANew 0 true"
+            else:
+                body = []
+                if evs and evs[0] == "set":
+                    body.append("AStart None 0")
+                    evs = evs[1:]
+                evs = evs[1:]
+                ins, tail = "AStep (Z.add 1) true", []
+            if n_mem >= P.memoize:
+                q.append("AEvict 0")
+                n_mem -= 1
+            q += body + [ins] + tail
+            n_mem += 1
+        aops.append(q)
         buf = P.solver._integrator._y.as_ndarray()
         shared = [i for i, p in enumerate(P.props)
                   if type(p.data).__name__ == "Dense" and np.shares_memory(p.data.as_ndarray(), buf)]
@@ -176,6 +211,7 @@ def run_prop_impl(case):
             shared.append("answer")
         if shared:
             alias.append((len(out), shared))
+        sizes.append((len(P.props), len([x for x in shared if x != "answer"])))
         tl, yl = P.solver._integrator.get_state()
         out.append((decode(U.full()),
                     [int(x) if float(x).is_integer() else repr(x) for x in P.times],
@@ -294,10 +330,12 @@ def propagator_part(ctx, rng):
     impl = []
     infos = []
     dist = {"style": {}, "cte": {}, "tol": {}, "memoize": {}, "len": {}}
-    aliases = []
+    aliases, asizes, aopss = [], [], []
     for c in cases:
         o, info = run_prop_impl(c)
         aliases.append(c.pop("_alias", []))
+        asizes.append(c.pop("_sizes", []))
+        aopss.append(c.pop("_aops", []))
         impl.append(canon_impl_obs(o))
         infos.append(info)
         for key, val in (("style", c["style"]), ("cte", c["cte"]), ("tol", c["tol"]),
@@ -363,6 +401,41 @@ def propagator_part(ctx, rng):
             ctx.violation("propagator.Propagator", "wrong-answer-with-model-agreement",
                           bad[0][1], detail)
     ctx.cov["propagator_agreement"] = agree
+    # object-identity model (Model/C11_alias.v): memo size and entries shared
+    # with the integrator buffer after every query
+    AH = ("From Coq Require Import List ZArith Bool.\nImport ListNotations.\n"
+          "From QV Require Import Model.C11_alias.\nOpen Scope Z_scope.\n")
+    aex, where = [], []
+    for i, (qops, sz) in enumerate(zip(aopss, asizes)):
+        if len(qops) != len(sz) or not sz or impl[i] and impl[i][-1][0] == "error":
+            continue
+        acc = []
+        for qi, q in enumerate(qops):
+            acc = acc + q
+            if qi == len(qops) - 1 or qi == len(qops) // 2:
+                aex.append("let s := a_run Z 0 true (a_init Z 0) %s in "
+                           "(length (a_memo s), length (filter (fun b => b) (a_shared Z s)))"
+                           % clist(acc))
+                where.append((i, qi))
+    try:
+        avals = vlib.coq_eval_values("cases_C11a", AH, aex, chunk=300)
+    except RuntimeError as e:
+        ctx.violation("corr:C11:alias-model-eval", "coqc", "model evaluation failed",
+                      {"log": str(e)}, found_input=False)
+        avals = []
+    a_ok = 0
+    for (i, qi), v in zip(where, avals):
+        mv = tuple(vlib.parse_coq_value(v))
+        if mv == tuple(asizes[i][qi]):
+            a_ok += 1
+        else:
+            ctx.violation("corr:propagator.Propagator:aliasing", "model-differs",
+                          "memo size / entries shared with the integrator buffer differ from the "
+                          "object model after query %d: implementation %r, model %r" % (
+                              qi, asizes[i][qi], mv),
+                          {"kind": "propagator", "case": cases[i]},
+                          found_input=asizes[i][qi][1] > 0)
+    ctx.cov["propagator_alias_model_agreement"] = {"checked": len(where), "agree": a_ok}
     ctx.sample({"propagator_case": cases[-1], "impl_observations": impl[-1][:2]})
     return agree
 
@@ -2233,6 +2306,8 @@ def run(ctx):
             c = gen_prop_case(r2)
             o, _i = run_prop_impl(c)
             c.pop("_alias", None)
+            c.pop("_sizes", None)
+            c.pop("_aops", None)
             bad = prop_oracle(c, canon_impl_obs(o))
             if bad:
                 ctx.violation("propagator.Propagator", bad[0][1].split("=")[0], bad[0][1],
@@ -2265,6 +2340,8 @@ def replay(ctx, payload):
         c = d["case"]
         o, _ = run_prop_impl(c)
         al = c.pop("_alias", [])
+        c.pop("_sizes", None)
+        c.pop("_aops", None)
         bad = prop_oracle(c, canon_impl_obs(o))
         if al and not bad:
             bad = [(al[0][0], "memo entries %r share memory with the integrator buffer" % (al[0][1],))]
